@@ -92,7 +92,7 @@ var kindPre = map[string]KindSet{
 	"Index":    ks(kArray, kSlice, kString),
 	"Slice":    ks(kSlice, kString, kArray),
 	"MapIndex": ks(kMap), "MapKeys": ks(kMap), "MapRange": ks(kMap),
-	"FieldByName": ks(kStruct), "NumField": ks(kStruct), "Field": ks(kStruct),
+	"FieldByName": ks(kStruct), "NumField": ks(kStruct), "Field": ks(kStruct), "FieldByIndexErr": ks(kStruct), "FieldByIndex": ks(kStruct),
 	"Elem":  ks(kInterface, kPointer),
 	"Call":  ks(kFunc),
 	"IsNil": ks(kChan, kFunc, kInterface, kMap, kPointer, kSlice, kUnsafePointer),
@@ -209,6 +209,7 @@ type kengine struct {
 	in, out map[*ssa.BasicBlock]*kstate
 	edge    map[[2]*ssa.BasicBlock]*kstate // state on the edge pred→succ after the branch refinement
 	preds   *predSummaries
+	initial *kstate // facts about reflect.Value parameters lifted from the (static) call sites
 	// invariant: the `val` field of a *Value is Invalid or can Interface (assumed for reads, checked at constructions)
 }
 
@@ -620,6 +621,9 @@ func (e *kengine) run() {
 	e.out = map[*ssa.BasicBlock]*kstate{}
 	e.edge = map[[2]*ssa.BasicBlock]*kstate{}
 	e.in[f.Blocks[0]] = newKState()
+	if e.initial != nil {
+		e.in[f.Blocks[0]] = e.initial.clone()
+	}
 	work := []*ssa.BasicBlock{f.Blocks[0]}
 	inWork := map[*ssa.BasicBlock]bool{f.Blocks[0]: true}
 	iter := 0
@@ -975,8 +979,7 @@ func ruleReflectTypestate(p *Prog, a *Anchors, r *Report, rule string, only func
 			continue
 		}
 		funcs++
-		e := &kengine{p: p, f: f, preds: preds}
-		e.run()
+		e := kEngineFor(p, f, preds, map[*ssa.Function]bool{})
 		fname := p.FuncName(f)
 		for _, b := range f.Blocks {
 			st := e.in[b]
@@ -1061,6 +1064,69 @@ func ruleReflectTypestate(p *Prog, a *Anchors, r *Report, rule string, only func
 	}
 	sort.Strings(sums)
 	r.Extra["predicate_summaries"] = sums
+}
+
+var kEngines = map[*Prog]map[*ssa.Function]*kengine{}
+
+// kEngineFor runs (once) the abstract execution of f. reflect.Value parameters of an unexported function that is only
+// ever called statically start with the join of the facts its callers have established for the argument — a helper
+// such as fieldByName(v, name) is analysed under "v is a struct" when every caller has tested that.
+func kEngineFor(p *Prog, f *ssa.Function, preds *predSummaries, visiting map[*ssa.Function]bool) *kengine {
+	if kEngines[p] == nil {
+		kEngines[p] = map[*ssa.Function]*kengine{}
+	}
+	if e, ok := kEngines[p][f]; ok {
+		return e
+	}
+	e := &kengine{p: p, f: f, preds: preds}
+	if !visiting[f] && f.Parent() == nil && (f.Object() == nil || !f.Object().Exported()) && p.staticOnly(f, nil) {
+		visiting[f] = true
+		node := p.CG.Nodes[f]
+		var init *kstate
+		ok := node != nil && len(node.In) > 0
+		if ok {
+			for _, edge := range node.In {
+				caller := edge.Caller.Func
+				if caller == f || !p.InPkg(caller) || caller.Blocks == nil || visiting[caller] {
+					ok = false
+					break
+				}
+				ce := kEngineFor(p, caller, preds, visiting)
+				cst := ce.in[edge.Site.Block()]
+				if cst == nil {
+					continue // unreachable call site
+				}
+				args := callArgs(edge.Site.Common())
+				st := newKState()
+				for i, pa := range f.Params {
+					if i < len(args) && isReflectValue(pa.Type()) {
+						st.vals[e.key(pa)] = ce.get(cst, args[i])
+					}
+				}
+				if init == nil {
+					init = st
+				} else {
+					// join parameter facts (keys are the callee's parameter keys in both)
+					for k, v := range st.vals {
+						if o, has := init.vals[k]; has {
+							j := kfact{kinds: o.kinds | v.kinds, ci: o.ci, addr: o.addr && v.addr}
+							if v.ci < j.ci {
+								j.ci = v.ci
+							}
+							init.vals[k] = j
+						}
+					}
+				}
+			}
+		}
+		if ok && init != nil {
+			e.initial = init
+		}
+		delete(visiting, f)
+	}
+	e.run()
+	kEngines[p][f] = e
+	return e
 }
 
 func ciText(f kfact) string {
